@@ -70,6 +70,7 @@ theorem responseKids_isOk {fs : Facts} {act : SAct} {vals : List (Str × Val)}
 def HandlerOk (fs : Facts) (acts : List SAct) (h : Handler) : Prop :=
   ∀ act ∈ acts, ∀ kw, match h act.name kw with
     | .ret vals => validResults fs act vals = true
+    | .retVars vals _ => validResults fs act vals = true
     | .err _ => True
 
 /-- outcome of the server for every request (any header, any body) is an HTTP response:
@@ -94,7 +95,14 @@ theorem serverHandle_cases (fs : Facts) (stype : Str) (acts : List SAct) (h : Ha
         simp only [hres] at hk
         simp only [validResults, Bool.and_eq_true] at hk
         obtain ⟨ks, hr⟩ := responseKids_isOk hk.1
-        exact Or.inr (Or.inr ⟨envelope [Xml.node (responseTag stype act.name) [] none ks], by simp [hr]⟩)
+        exact Or.inr (Or.inr ⟨envelope [Xml.node (responseTag stype act.name) [] none ks], by simp [renderResult, hr]⟩)
+      | retVars vals asVar =>
+        simp only [hres] at hk
+        simp only [validResults, Bool.and_eq_true] at hk
+        obtain ⟨ks, hr⟩ := responseKids_isOk hk.1
+        by_cases hv : asVarValid fs act vals asVar = true
+        · exact Or.inr (Or.inr ⟨envelope [Xml.node (responseTag stype act.name) [] none ks], by simp [renderResult, hr, hv]⟩)
+        · exact Or.inr (Or.inl ⟨402, by simp [renderResult, hv]⟩)
 
 
 /-- an invalid request (Spec: `invalidReq`) is answered 400 or with the SOAP fault 402 -/
@@ -120,13 +128,7 @@ theorem invalid_cases (fs : Facts) (stype : Str) (acts : List SAct) (h : Handler
 theorem serverHandle_reached {fs : Facts} {stype : Str} {acts : List SAct} {h : Handler} {r : Req}
     {n : Str} {kw : PyDict Str Val} (hi : handlerInput fs acts r = some (n, kw)) :
     ∃ act, act ∈ acts ∧ act.name = n ∧ parseActionBody fs acts r = .ok act kw ∧
-      serverHandle fs stype acts h r =
-        (match h n kw with
-         | .err code => .resp 500 (faultDoc (match code with | some c => if c = 0 then 501 else c | none => 501))
-         | .ret vals =>
-           match responseKids fs act vals with
-           | .ok ks => .resp 200 (envelope [.node (responseTag stype n) [] none ks])
-           | .error e => .unhandled e.toList) := by
+      serverHandle fs stype acts h r = renderResult fs stype act (h n kw) := by
   unfold handlerInput at hi
   cases hp : parseActionBody fs acts r with
   | bad reason => simp [hp] at hi
@@ -142,7 +144,6 @@ theorem serverHandle_reached {fs : Facts} {stype : Str} {acts : List SAct} {h : 
       unfold serverHandle
       rw [hp]
       simp only [hall, hs, Bool.not_true, Bool.false_eq_true, ↓reduceIte]
-      cases h act.name kw' <;> rfl
     · cases hi
 
 theorem textOf_getD (s : Str) : (textOf s).getD [] = s := by
